@@ -233,6 +233,16 @@ def valid(case):
             elif op in ('argv', 'pytest'):
                 if not all(isinstance(t, str) for t in s['tokens']):
                     return False
+                vocab = (['--write-all', '--write', '--wquiet', '--tagged',
+                          '--istagged'] if op == 'pytest' else
+                         ['-v', '-q', '-1', '-0', '-f', '--tagged', '-W',
+                          '--W', '--write-all', '-w', '--w', '--write',
+                          '-1W', '-W1', '-vW', '-0W', '-wquiet', '--wquiet'])
+                for t in s['tokens']:
+                    if t not in vocab and not (t and all(
+                            k in ('table', 'graph', 'csv', 'zzz')
+                            for k in t.split(','))):
+                        return False
                 if op == 'argv':
                     parse_argv_model(s['tokens'])
                 else:
